@@ -409,6 +409,11 @@ pub fn gen(prop: &str, seed: u64, index: u64, _tier: Tier) -> Case {
             last_temp: None,
         };
         let deps: Vec<(String, String)> = dep_edges[i].iter().map(|j| (paths[*j].clone(), outs[*j].clone())).collect();
+        if g.rng.chance(1, 25) {
+            // a first line longer than any I/O buffer (the line ending is taken from it)
+            let n = *g.rng.pick(&[8190usize, 8191, 8192, 9000, 70000]);
+            f.b.push("L".repeat(n));
+        }
         let n_elems = g.rng.range(0, 10);
         // make sure every declared dependency is really used at least once
         let mut must: Vec<(String, String)> = deps.clone();
@@ -462,14 +467,17 @@ pub fn gen(prop: &str, seed: u64, index: u64, _tier: Tier) -> Case {
                 "temp-txtpp",
                 "temp-txtpp-mid",
                 "include-directory",
+                "command-killed",
             ];
             let k = *g.rng.pick(&kinds);
             err_kind = k.to_string();
             g.cmds.insert("exit 3".into(), CmdSpec::Fail(3));
+            g.cmds.insert("printf partial; kill -9 $$".into(), CmdSpec::Fail(137));
             g.cmds.insert("printf 'c1\\n'".into(), CmdSpec::Lit("c1\n".into()));
             let bad: Vec<Vec<String>> = match k {
                 "include-missing" => vec![vec!["TXTPP#include no_such_file.txt".into()]],
                 "command-fails" => vec![vec!["-TXTPP#run exit 3".into()]],
+                "command-killed" => vec![vec!["-TXTPP#run printf partial; kill -9 $$".into()]],
                 "tag-while-listening" => vec![vec!["TXTPP#tag ZA".into()], vec!["TXTPP#tag ZB".into()]],
                 "tag-same-name" => vec![
                     vec!["TXTPP#tag ZA".into()],
